@@ -6,7 +6,7 @@ cd /repo || exit 2
 git diff --quiet || { echo "repo dirty"; exit 2; }
 git show "$c" | git apply -R || exit 2
 for id in "$@"; do
-  out=$(cd /verif && VERIF_TLC_TIMEOUT=600 ./check "$id" --tier quick 2>/dev/null | grep -c '^VIOLATION')
+  out=$(cd /verif && VERIF_NO_EVIDENCE=1 VERIF_TLC_TIMEOUT=600 ./check "$id" --tier quick 2>/dev/null | grep -c '^VIOLATION')
   echo "revert $c -> $id: $out VIOLATION lines"
 done
 git checkout -- . 
